@@ -387,7 +387,11 @@ func (cs *Contracts) parseFile(path, pkg string) error {
 			if err != nil {
 				return fmt.Errorf("%s:%d: %v", path, d.line, err)
 			}
-			cur.Sites = append(cur.Sites, &SiteSpec{Kind: "ghost-after", Target: fs[2], C: &Clause{Label: fs[3], Props: props, Src: rest[i+1:], E: e, File: path, Line: d.line}, Min: 1, Why: so})
+			min := 1
+			if fs[2] == "-" {
+				min = 0 // declaration only: the function mentions the ghost but updates it through callees
+			}
+			cur.Sites = append(cur.Sites, &SiteSpec{Kind: "ghost-after", Target: fs[2], C: &Clause{Label: fs[3], Props: props, Src: rest[i+1:], E: e, File: path, Line: d.line}, Min: min, Why: so})
 		case "lemma":
 			l, err := parseLemma(rest, pkg, path, d.line, props)
 			if err != nil {
